@@ -36,7 +36,24 @@ def c05_nontrivial(line):
     f = line.split(" ; ")[0].split()
     return f[2] != "0"                             # the handler returns a non-OK status
 
+def c14_nontrivial(line):
+    f = line.split(" ; ")[0].split()
+    return any(x != "-" for x in f[2:] if x not in ("ok", "fail"))
+
 PROPS = {
+    "C14": dict(
+        rule="C14I: request header sets (10 names in mixed case, 1-3 values, -bin values = all byte strings of length <=2 over "
+             "{00,01,7f,80,ff,'a'} + random up to 8 bytes, each in padded and unpadded base64, reserved names) on gRPC, gRPC-web, "
+             "HTTP transcoding; the handler's metadata.FromIncomingContext is compared with the model and judged by the spec. "
+             "C14O: handler SetHeader/SetTrailer sets incl. every reserved and framing name, OK and failing calls; response "
+             "headers/trailers (recorder snapshot, trailer frame on gRPC-web) judged against the spec and against a baseline "
+             "call without the protected keys. non-trivial = some header or metadata entry present",
+        nontrivial=c14_nontrivial,
+        assumptions=["request header keys are canonical as net/http delivers them",
+                     "a gRPC-web trailers-only response has one block for header and trailer metadata (values of a key set in both are concatenated)",
+                     "net/http sends keys under http.TrailerPrefix as trailers without announcement (library fact, modelled)"],
+        trusted=["httptest.ResponseRecorder as the client-side view of headers and trailers"],
+    ),
     "C05": dict(
         rule="a handler returning a scripted status (23 codes incl. 0, 17..20, 2^31, 2^32-1; ~80 messages: empty, ASCII, "
              "'%' in every position, control bytes, multi-byte UTF-8, 122..124 and 1500 bytes, all strings of length <=2 over "
